@@ -127,18 +127,19 @@ def run_fb(ffi, c):
     res = dict(out=["ok", len(cd) if t.kind == "array" else -1])
     if t.kind == "array":
         n = len(cd)
-        # only the exception class matters; nothing is read when the index is refused
-        def probe(i):
-            try:
-                ffi.addressof(cd, i) if False else cd[i]
-                return "ok"
-            except Exception as e:
-                return type(e).__name__
-        res["past_end"] = probe(n)
-        if 0 < n and n * ffi.sizeof(t.item) <= len(data) and t.item.kind != "struct" or False:
-            pass
+        # acceptance only: x[n] is refused before anything is read; the last item is reached through a
+        # slice view (bounds-checked, no value conversion, so random bytes cannot make it fail)
+        try:
+            cd[n]
+            res["past_end"] = "ok"
+        except Exception as e:
+            res["past_end"] = type(e).__name__
         if 0 < n and n * ffi.sizeof(t.item) <= len(data):
-            res["last"] = probe(n - 1) if t.item.cname != "_Bool" else "ok"
+            try:
+                v = cd[n - 1:n]
+                res["last"] = "ok" if len(v) == 1 else "len %d" % len(v)
+            except Exception as e:
+                res["last"] = type(e).__name__
         try:
             res["span"] = len(ffi.buffer(cd))
         except Exception as e:
